@@ -39,7 +39,7 @@ ASSUMPTIONS = [
 EXPECTED_PROBES = ['lookup_must_hit', 'lookup_must_miss', 'lookup_indeterminate', 'announce_ok', 'stored_on_all_k_closest',
                    'paging_checked', 'paging_multi_page', 'faulty_node_lookup', 'faulty_value_lookup', 'jump_24h',
                    'two_node_network', 'big_network', 'hostile_reply_seen', 'lookup_with_dead_nodes', 'reannounced',
-                   'must_hit_only_by_reannouncement', 'node_lookup_32']
+                   'must_hit_only_by_reannouncement', 'node_lookup_32', 'hit_after_heal']
 
 RPC_TIMEOUT = 5.0
 EXPIRY = 86400.0
@@ -47,7 +47,7 @@ EXPIRY = 86400.0
 
 def gen(run_seed, tier):
     r = stream('C12.gen', run_seed)
-    fam = r.choices(['hit', 'paging', 'faulty'], [5, 3, 4])[0]
+    fam = r.choices(['hit', 'paging', 'faulty', 'heal'], [5, 3, 4, 1.5])[0]
     sc = {'family': fam, 'id_seed': r.getrandbits(32), 'split_under': r.choice([1, 1, 1, 2]), 'hostile': {},
           'hostile_rate': 1.0}
     big = tier == 'thorough'
@@ -99,6 +99,29 @@ def gen(run_seed, tier):
         for i in others[:r.choice([n, max(1, n // 2), 3])]:
             ops.append({'op': 'lookup', 'node': i, 'blob': blob, 'wait': r.choice([0.0, 0.0, 1.0])})
         sc['ops'] = ops
+    elif fam == 'heal':
+        # bounded liveness once faults stop: loss and dead nodes for a while, then a loss-free honest network
+        # again (the premise of the hit guarantee); after a settle period announcements must be findable
+        n = r.choice([3, 5, 8, 10, 12, 16])
+        sc['n'] = n
+        sc['net'] = {'latency': [0.001, r.choice([0.02, 0.3])], 'dup': r.choice([0.0, 0.1]), 'loss': 0.0}
+        ops = [{'op': 'join', 'node': 0, 'wait': 0.0}]
+        for i in range(1, n):
+            ops.append({'op': 'join', 'node': i, 'wait': r.choice([0.0, 0.5, 5.0])})
+        ops.append({'op': 'sleep', 'dt': r.choice([620, 900])})
+        ops.append({'op': 'faults_on', 'loss': r.choice([0.2, 0.5, 0.8, 1.0]),
+                    'dead': r.sample(range(1, n), r.choice([0, 1, max(1, n // 3)]))})
+        ops.append({'op': 'sleep', 'dt': r.choice([120, 600, 1500, 4000])})
+        ops.append({'op': 'faults_off'})
+        ops.append({'op': 'sleep', 'dt': r.choice([1800, 3600, 7300])})
+        blob = r.getrandbits(384)
+        a = r.randrange(n)
+        ops.append({'op': 'announce', 'node': a, 'blob': blob, 'wait': 0.0})
+        others = list(range(n))
+        r.shuffle(others)
+        for i in others[:r.choice([n, max(1, n // 2)])]:
+            ops.append({'op': 'lookup', 'node': i, 'blob': blob, 'wait': r.choice([0.0, 1.0, 30.0])})
+        sc['ops'] = ops
     elif fam == 'paging':
         n = r.choice([2, 2, 3, 4])
         sc['n'] = n
@@ -121,9 +144,14 @@ def gen(run_seed, tier):
         from simverif.core.dhtenv import HOSTILE_BEHAVIOURS
         n_h = r.choice([0, 1, 2, max(1, n // 4), max(1, n // 2)])
         hostile = r.sample(range(1, n), min(n - 1, n_h))
-        mode = r.choice(['mixed', 'single', 'single'])
+        mode = r.choice(['mixed', 'single', 'single', 'far'])
+        if mode == 'far':
+            # a third of the nodes pad their genuine answers with made-up far contacts; searches that ask for more
+            # than the K closest results are the ones that can expose un-probed contacts
+            hostile = r.sample(range(1, n), max(1, n // 3))
         for h in hostile:
-            sc['hostile'][str(h)] = 'mixed' if mode == 'mixed' else r.choice(HOSTILE_BEHAVIOURS)
+            sc['hostile'][str(h)] = 'mixed' if mode == 'mixed' else 'append_far_fabricated' if mode == 'far' else \
+                r.choice(HOSTILE_BEHAVIOURS)
         sc['hostile_rate'] = r.choice([1.0, 0.7, 0.3])
         ops = [{'op': 'join', 'node': 0, 'wait': 0.0}]
         for i in range(1, n):
@@ -133,7 +161,8 @@ def gen(run_seed, tier):
                     'dead': r.sample(range(n), r.choice([0, 1, n // 5, n // 2]))})
         blob = r.getrandbits(384)
         for _ in range(r.choice([3, 6, 10])):
-            kind = r.choice(['node', 'node32', 'node32', 'value', 'value', 'announce'])
+            kind = r.choice(['node', 'node32', 'node32', 'value', 'value', 'announce'] if mode != 'far' else
+                            ['node32', 'node32', 'node32', 'node'])
             ops.append({'op': 'lookup' if kind != 'announce' else 'announce', 'kind': kind, 'node': r.randrange(n),
                         'blob': blob if r.random() < 0.6 else r.getrandbits(384), 'wait': r.choice([0.0, 1.0, 10.0, 100.0]),
                         'faulty': True})
@@ -302,6 +331,11 @@ def run_dht(scenario, run, monitor=False, corrupt_factory=None, max_steps=12_000
                         world.net.dead.add(world.addr_of[d])
                         run.faults['node_dead'] += 1
                 run.ev('faults_on', op.get('loss'), sorted(op.get('dead', [])))
+            elif kind == 'faults_off':
+                world.net.cfg['loss'] = 0.0
+                run.faults['healed'] += 1
+                world.net.dead.clear()
+                run.ev('faults_off')
             elif kind == 'announce':
                 i = op['node']
                 if i not in started:
@@ -349,8 +383,9 @@ def run_dht(scenario, run, monitor=False, corrupt_factory=None, max_steps=12_000
                 else:
                     run.probes['stored_not_exactly_k_closest'] += 1
                 # "stored on nodes closest to its hash": the lookup is heuristic (exactly the K closest in 8047 of
-                # 8048 settled announcements of a thorough batch), so only a gross miss is a violation
-                if len(stored_idx & set(closest)) * 2 < min(len(stored_idx), len(closest)):
+                # 8048 settled announcements of a thorough batch), so only a gross miss is a violation, and only in the
+                # never-faulted family (after a long outage a node's table is legitimately sparse for a while)
+                if fam == 'hit' and len(stored_idx & set(closest)) * 2 < min(len(stored_idx), len(closest)):
                     run.violation('C12.stored_far_from_hash', f'announce_blob by node {i} stored on nodes '
                                   f'{sorted(x for x in stored_idx if x is not None)} but the {len(closest)} nodes closest to '
                                   f'the hash are {closest}')
@@ -457,6 +492,8 @@ def run_dht(scenario, run, monitor=False, corrupt_factory=None, max_steps=12_000
                     if t_end < latest['start'] + EXPIRY - 60:
                         # younger than 24 h with respect to the latest announcement of that node
                         run.probes['lookup_must_hit'] += 1
+                        if fam == 'heal':
+                            run.probes['hit_after_heal'] += 1
                         if len(recs) > 1 and t0 > recs[0]['end'] + EXPIRY:
                             run.probes['must_hit_only_by_reannouncement'] += 1
                         if me not in got:
